@@ -34,6 +34,13 @@ pub fn f64_pool() -> Vec<f64> {
         170.0,
         171.0,
         1e18,
+        // neighbours of small integers and of 2^63
+        0.9999999999999999,
+        1.0000000000000002,
+        -0.9999999999999999,
+        9223372036854775808.0,
+        9223372036854774784.0,
+        2251799813685248.5,
     ]
 }
 
@@ -90,6 +97,16 @@ pub fn dec_pool() -> Vec<Decimal> {
         dec("0.5"),
         dec("-1"),
         dec("79228162514264337593543950334"),
+        // one and two units in the last place around small integers at full scale
+        dec("0.9999999999999999999999999999"),
+        dec("1.0000000000000000000000000001"),
+        dec("1.0000000000000000000000000002"),
+        dec("1.9999999999999999999999999998"),
+        dec("6.9999999999999999999999999999"),
+        dec("-0.9999999999999999999999999999"),
+        dec("-3.0000000000000000000000000001"),
+        dec("2"),
+        dec("2.00"),
     ]
 }
 
@@ -213,6 +230,9 @@ pub fn boundary_lits(ev: Ev) -> Vec<String> {
         ],
     };
     let mut out: Vec<String> = v.into_iter().map(|s| s.to_string()).collect();
+    if matches!(ev, Ev::F64 | Ev::Num) {
+        out.extend(["9007199254740992.0", "9223372036854775808.0", "3.0", "0.0"].iter().map(|s| s.to_string()));
+    }
     if matches!(ev, Ev::F64 | Ev::Cpx | Ev::Num) {
         out.push(format!("{}.0", big400));
         out.push(format!("1{}.5", "0".repeat(308)));
@@ -221,6 +241,16 @@ pub fn boundary_lits(ev: Ev) -> Vec<String> {
         out.extend(["i", "2i", "0.5i", ".5i", "3.i"].iter().map(|s| s.to_string()));
     }
     out
+}
+
+/// Truncated decimal spellings of mathematically special constants (e, pi, sqrt 2, 3^(1/3), e^(1/e), 1/e, ln 2 …):
+/// values a "fast path" or a rounded threshold constant is likely to be written around.
+pub fn near_constants() -> Vec<&'static str> {
+    vec![
+        "2.718281828", "2.7182818285", "2.718281828459045", "2.71828", "3.14159265", "3.141592653589793", "3.1416", "1.4142135623730951", "1.41421356", "1.4422495703074083", "1.44224957", "1.44222",
+        "1.4446678610097661", "1.444667", "1.4447", "0.36787944117144233", "0.367879441", "0.6931471805599453", "0.69314718", "1.618033988749895", "0.5772156649015329", "2.302585092994046", "1.0000001", "0.9999999",
+        "1.00000001", "1.000000001", "0.999999999",
+    ]
 }
 
 pub fn selftest() {
